@@ -1340,7 +1340,10 @@ func isStringish(t types.Type) bool {
 	return false
 }
 
-func (m *matrix) sitesOf(fn *ssa.Function) []site {
+func (m *matrix) sitesOf(fn *ssa.Function) []site { return m.sitesOfX(fn, false) }
+
+// sitesOfX: emission sites; withConst also lists constant pieces of assembled strings (needed when the text itself is judged).
+func (m *matrix) sitesOfX(fn *ssa.Function, withConst bool) []site {
 	var out []site
 	// an accumulator is a string whose left spine of concatenations ends in a phi or a local variable (text emitted so far)
 	var isAccum func(v ssa.Value, d int) bool
@@ -1381,7 +1384,7 @@ func (m *matrix) sitesOf(fn *ssa.Function) []site {
 				}
 			} else if f != nil && fprintFuncs[f.String()] && len(x.Common().Args) > 1 {
 				for _, a := range x.Common().Args[1:] {
-					if _, isConst := a.(*ssa.Const); !isConst {
+					if _, isConst := a.(*ssa.Const); !isConst || withConst {
 						out = append(out, site{fn, ins, a})
 					}
 				}
@@ -1453,13 +1456,25 @@ func (m *matrix) sitesOf(fn *ssa.Function) []site {
 			}
 			pieces(v, ins)
 			for _, l := range leaves {
-				if _, ok := l.v.(*ssa.Const); ok {
+				if _, ok := l.v.(*ssa.Const); ok && !withConst {
 					continue
 				}
 				out = append(out, site{fn, l.at, l.v})
 			}
 		}
 	})
+	// the same piece can be reached as an accumulator append and as a leaf of the returned concatenation
+	seenSite := map[[2]any]bool{}
+	var uniq []site
+	for _, st := range out {
+		k := [2]any{st.instr, st.val}
+		if seenSite[k] {
+			continue
+		}
+		seenSite[k] = true
+		uniq = append(uniq, st)
+	}
+	out = uniq
 	return out
 }
 
